@@ -61,8 +61,11 @@ def check(case, ctx):
     if lo is None:
         ctx.case(case, False, labels + ["no_usage"])
         return
-    date = c05.sim_date(case["date_kind"], case["k"], lo, hi)
     kind = case["date_kind"]
+    if kind in ("before", "after"):
+        flo, fhi = c05.full_period(objs)
+        lo, hi = (flo if flo is not None else lo), (fhi if fhi is not None else hi)
+    date = c05.sim_date(case["date_kind"], case["k"], lo, hi)
     kinds = {E.kind(spec, e) for e in case["changes"]}
     trigger = "hourly_input_changed" if "UsagePattern.hourly_usage_journey_starts" in kinds else (
         "timezone_changed" if kinds & {"Country.timezone", "UsagePattern.country"} else "none")
